@@ -6,12 +6,22 @@ Parts (all on every run):
      backend that is an arbitrary (hash-seeded) function of the alphabetically ordered data: correspondence
      with wrapVec / wrapMat / wrapVecRef / wrapVecFull, and the direct oracle (two listings of 3-6 elements
      must give results that are permutations of each other)
+  B2 the REAL diffusion-side code (profile / boundary-condition mapping by element, computeMobility,
+     computeHomogenizationFunction, _computeSingleMobility, getFluxes / getdXdt / getDt of SinglePhaseModel and
+     HomogenizationModel) on the same stub backend, 3-6 elements, two listings: everything compared by element
+     NAME, chemical potentials / mobilities against the backend answer by name, sibling functions against each other
   C  the REAL Constraints.computeDTfrom…, PrecipitateModel.getDt and _calcNucleationSites on random hand-set
      multi-phase states (1-4 phases, all five site types, parent phases) vs KawinV.DtRules, and the direct
      oracle under all listings of the phases
+  C2 the REAL PrecipitateModel._updateParticleSizeDistribution on hand-set 2-4 phase models with a loaded size
+     distribution in every phase (re-meshing, thresholds, dissolution index; _growthRate stubbed by an arbitrary
+     per-phase function), followed by the real getDt: per-phase state by phase NAME across listings and against
+     the same phase updated alone (the update is `map` of a per-phase function)
   D  MONITORED (oracle only): pycalphad + floating point — paired ternary Ni-Cr-Al evaluations with the
      elements listed NI,AL,CR / NI,CR,AL; a short paired ternary diffusion run; a paired ternary KWN run;
-     paired two-phase Al-Mg-Si KWN runs (both phase orders): same time grid, same histories, permuted.
+     paired two-phase Al-Mg-Si KWN runs (both phase orders; from nucleation and from loaded size distributions): same
+     time grid, same histories, same final PSD / dissolution index, permuted; paired homogenization-path evaluations
+     (Fe-Cr-Ni FE,NI,CR / FE,CR,NI and Ni-Cr-Al NI,AL,CR / NI,CR,AL: a 3-cycle listing against an involutive one).
 """
 import contextlib, hashlib, itertools, math, random, time, types, warnings
 import numpy as np
@@ -20,7 +30,7 @@ from vlib import Result, enc_list, enc_ilist, enc_bool, f2b, Toks, close
 
 PROP = 'C11'
 META = {
-    'level_text': 'Lean 4 theorems (any number of elements / phases): argsort(argsort(k)) inverts argsort(k) for vectors and for rows∘columns of a matrix; for an ARBITRARY backend function of alphabetically ordered data the wrapper unsort∘backend∘sort is equivariant under every permutation of the listed solutes (vector results permuted, matrix results P·D·Pᵀ, also with the reference element kept in front); D·∇x commutes with a re-listing of the independent elements; every computeDTfrom… rule, getDt and _calcNucleationSites are invariant under List.Perm of the phase list (min is symmetric, sums over phases commute), the step summary (dt, sites per phase) is equivariant; computeDTfromVolume as it WAS is proved order dependent on a concrete witness (repaired in /repo). Models tied to the real wrapper code (run on stubbed arbitrary backends) and to the real Constraints / PrecipitateModel objects by differential correspondence on every run; the property itself is evaluated on the implementation for all listings.',
+    'level_text': 'Lean 4 theorems (any number of elements / phases): argsort(argsort(k)) inverts argsort(k) for vectors and for rows∘columns of a matrix; for an ARBITRARY backend function of alphabetically ordered data the wrapper unsort∘backend∘sort is equivariant under every permutation of the listed solutes (vector results permuted, matrix results P·D·Pᵀ, also with the reference element kept in front); D·∇x commutes with a re-listing of the independent elements; every computeDTfrom… rule, getDt and _calcNucleationSites are invariant under List.Perm of the phase list (min is symmetric, sums over phases commute), the step summary (dt, sites per phase) is equivariant; the per-phase update of a step is a map over the phases, hence equivariant, and getDt after it is invariant (the form with the dissolution-index refresh dedented out of the loop is the proved counter-example); computeDTfromVolume as it WAS is proved order dependent on a concrete witness (repaired in /repo). Models tied to the real wrapper code (run on stubbed arbitrary backends) and to the real Constraints / PrecipitateModel objects by differential correspondence on every run; the property itself is evaluated on the implementation for all listings.',
     'level_note': 'MONITORED only (oracle, no proof): everything that involves pycalphad and IEEE arithmetic — that the real backend (equilibrium solver, mobility models, linear algebra) is a function of the alphabetically ordered data only (paired NI,AL,CR / NI,CR,AL evaluations to rtol 1e-6), the ternary diffusion run, the ternary and two-phase KWN runs (time grid rtol 1e-6, histories rtol 2e-3: solver noise of 1e-9 in the driving force is amplified by exp(-G*/kT) in the nucleation rate). Proved statements are in exact field arithmetic: floating-point sums over phases may differ in the last ulp between listings (compared to rtol 1e-12). The whole KWN step is modelled as far as getDt and the nucleation-site competition go; the per-phase PBM update, mass balance and growth rate are per-phase or order-free sums covered by C01/C02/C07 and by the paired runs. np.argsort is modelled for DISTINCT keys (element names are distinct). Trusted: Lean kernel + Mathlib, axioms propext/Classical.choice/Quot.sound; hand models equal the Python code as far as this run compared them.',
     'technique': 'Lean 4 proof (List.Perm / sorted lists, ordered fields) + model/implementation differential correspondence with stubbed backends + paired-run oracle',
     'design_ref': 'DESIGN.md section 6, C11',
@@ -29,12 +39,15 @@ LEAN_MODULES = ['KawinV.Props.C11']
 MONITORED = [
     'pycalphad backend depends on the alphabetically ordered data only: paired Ni-Cr-Al evaluations (driving force and precipitate composition by 4 methods, interdiffusivity, tracer diffusivity, mobility, interfacial composition, curvature factors, growth) with elements NI,AL,CR vs NI,CR,AL, rtol 1e-6',
     'paired ternary single-phase diffusion run (CR,AL vs AL,CR): same time, profiles permuted, rtol 1e-8',
+    'paired real homogenization-path evaluations with a 3-cycle listing (FE,NI,CR vs FE,CR,NI; NI,AL,CR vs NI,CR,AL): homogenized mobility, chemical potentials, computeMobility, fluxes, dt (thorough: profiles after 3 steps) by element name, rtol 1e-6',
+    'paired Al-Mg-Si runs started from loaded log-normal size distributions in every phase (removeCache=True): time grid rtol 1e-6, histories 1e-4, final PSD / size classes / dissolution index by phase name',
     'paired ternary KWN run (Al,Cr vs Cr,Al) and paired two-phase Al-Mg-Si KWN runs (both phase orders): time grid rtol 1e-6, per-phase histories rtol 2e-3',
     'floating-point sums over phases (site competition) between listings: rtol 1e-12',
 ]
 ASSUMPTIONS = [
     'element names and phase names are distinct; the reference element is listed first (API contract of kawin.thermo)',
     'a precipitation model has at least one phase (np.amin of an empty array raises)',
+    'paired real runs in which the matrix runs out of a solute (composition clamped at minComposition) are not compared: on the composition boundary the pycalphad answers are erratic from call to call',
     'NaN inputs are outside the statement (x != 0 is modelled as x < 0 or 0 < x)',
     'exact-field theorems vs IEEE doubles: model/implementation compared with rtol 1e-9, listings of the implementation with rtol 1e-12',
 ]
@@ -1209,7 +1222,7 @@ def noise_limited_step(m, i):
     return False, None
 
 
-def part_kwn_multiphase(ctx, res, steps, three=False, cached=False):
+def part_kwn_multiphase(ctx, res, steps, three=False, cached=False, loaded=False):
     """paired runs with the phases listed in every order.  cached=False: thermodynamics without warm-start caches
     (setThermodynamics(removeCache=True)): the backend is a deterministic function of (x, T, phase), the runs must
     agree to rounding.  cached=True: kawin's default; the equilibrium solver is warm-started from the previous call,
@@ -1244,28 +1257,58 @@ def part_kwn_multiphase(ctx, res, steps, three=False, cached=False):
         m.setThermodynamics(_TH[key], removeCache=not cached)
         m.constraints.dtScale = 0.1
         return m
+    # loaded=True: every phase starts from a log-normal size distribution (growth / coarsening regime: small classes
+    # dissolve, the dissolution index, re-meshing and the PSD step rule are active from the first step)
+    psd0 = {}
+    for p in allph:      # median radius, width, number density such that the loaded volume fraction is 3e-4 .. 1.2e-3 per phase
+        r0 = r.uniform(1.2e-9, 3e-9)
+        psd0[p] = (r0, r.uniform(0.25, 0.35), r.uniform(3e-4, 1.2e-3) / (4.19 * r0 ** 3))
+
+    def lognormal(r0, sg, Ntot):
+        def f(R):
+            w = 1 / (R * sg * np.sqrt(2 * np.pi)) * np.exp(-np.log(R / r0) ** 2 / (2 * sg ** 2))
+            return Ntot * w / np.sum(w)
+        return f
     orders = list(itertools.permutations(range(len(phs))))
+    if three and loaded:
+        orders = [orders[0], (2, 0, 1), (1, 0, 2)]
     runs = []
     with warnings.catch_warnings():
         warnings.simplefilter('ignore')
         for o in orders:
             _TH[key].clearCache()
             m = build([phs[i] for i in o])
+            if loaded:
+                m.setPBMParameters(cMin=1e-10, cMax=6e-9, bins=75, minBins=50, maxBins=100)
+                m.setup()
+                for p in phs:
+                    m.PBM[m.phaseIndex(p)].LoadDistributionFunction(lognormal(*psd0[p]))
             kwnruns.run(m, 3600 * 50, max_steps=steps)
             runs.append((o, m))
-    mode = 'cached' if cached else 'fresh'
-    desc = dict(part='kwn-multiphase', mode=mode, phases=phs, T=T, x0=x0, sites=sites, steps=steps)
+    mode = ('cached' if cached else 'fresh') + ('-loaded' if loaded else '')
+    desc = dict(psd0=psd0 if loaded else None, part='kwn-multiphase', mode=mode, phases=phs, T=T, x0=x0, sites=sites, steps=steps)
     base = runs[0][1]
     active = int(np.sum(np.max(base.pData.nucRate, axis=0) > 0))
-    res.case(('kwn-multiphase', mode, tuple(phs), round(T, 3)), active >= 1)
+    res.case(('kwn-multiphase', mode, tuple(phs), round(T, 3)), active >= 1 or loaded)
     res.count('D:kwn-multiphase-%s-runs' % mode, len(runs)); res.count('D:kwn-multiphase-%s-phases-nucleating=%d' % (mode, active))
     res.traces += len(runs)
+    if any(np.any(m.pData.composition[:m.pData.n + 1] <= m.constraints.minComposition) for _, m in runs):
+        # the matrix ran out of a solute: the backend is evaluated ON the composition boundary, where pycalphad's answer
+        # flips sign from call to call (observed: driving force -5e9 / +3e9 at x_MG = 0) - outside the statement
+        res.count('D:kwn-multiphase-%s-matrix-depleted-skipped' % mode)
+        return
     for o, m in runs[1:]:
         # phase j of the first listing sits at position o.index(j) of the re-listing
         perm = [list(o).index(j) for j in range(len(phs))]
         d2 = dict(desc, listing=[phs[i] for i in o])
         if not cached:
-            compare_runs(res, d2, base, m, perm, 'phase-order:run', rt_time=1e-9, rt_hist=1e-6)
+            compare_runs(res, d2, base, m, perm, 'phase-order:run', rt_time=1e-6, rt_hist=1e-4)
+            for j in range(len(phs)):
+                A, B = base.PBM[j], m.PBM[perm[j]]
+                if A.PSD.shape != B.PSD.shape or rel(A.PSDbounds, B.PSDbounds) > 1e-9 or np.max(np.abs(A.PSD - B.PSD)) > 1e-4 * max(np.max(np.abs(A.PSD)), 1.0) \
+                        or int(base.dissolutionIndex[j]) != int(m.dissolutionIndex[perm[j]]):
+                    res.violate('phase-order:run:final-PSD', 'paired runs: final size distribution / size classes / dissolution index of phase %s differ between listings' % phs[j], d2,
+                                [int(B.bins), int(m.dissolutionIndex[perm[j]])], [int(A.bins), int(base.dissolutionIndex[j])])
             continue
         k = min(base.pData.n, m.pData.n)
         ta, tb = base.pData.time[:k + 1], m.pData.time[:k + 1]
@@ -1322,26 +1365,29 @@ def corr(ctx, oracle_only=False, scale=1):
     res.rule = ('A: random distinct keys (element names from a pool of 25 symbols incl. common prefixes C/CO/CR/CU, ints, doubles), 1-12 keys; '
                 'B: 3-6 random element names, random compositions, a random non-identity re-listing of the solutes, real wrapper code on a hash-seeded stub backend; '
                 'non-trivial = the re-listing is not an involution (sortIndices != unsortIndices); '
-                'C: 1-4 phases x 5 site types x parent phases x PSD/growth/nucleation-rate/Rcrit regimes x n=0/n>0 x isothermal or not, all (<= 6) listings; '
+                'B2: the same element lists with profiles / boundary conditions given by element name, 4-7 nodes, 5 homogenization functions; non-trivial = sorting permutation of the full element list is not an involution; C2: 2-4 phases with log-normal / tail-full / small / empty distributions, reversed + rotated + random listings; non-trivial = some phase gets a dissolution index > 0; C: 1-4 phases x 5 site types x parent phases x PSD/growth/nucleation-rate/Rcrit regimes x n=0/n>0 x isothermal or not, all (<= 6) listings; '
                 'non-trivial = >= 2 phases and at least one rule below dtMax; D: paired real evaluations / runs; distinct = case seed')
     use_model = bool(ctx.driver_ok) and not oracle_only
     t0 = time.time()
     part_argsort(ctx, res, ctx.n(300, 6000) * scale, use_model)
-    part_wrappers(ctx, res, ctx.n(200, 3000) * scale, use_model)
+    part_wrappers(ctx, res, ctx.n(150, 3000) * scale, use_model)
     part_diffusion_stub(ctx, res, ctx.n(80, 1500) * scale, use_model)
     t1 = time.time()
-    part_steps(ctx, res, ctx.n(1200, 25000) * scale, use_model)
-    part_update(ctx, res, ctx.n(400, 8000) * scale)
+    part_steps(ctx, res, ctx.n(800, 25000) * scale, use_model)
+    part_update(ctx, res, ctx.n(300, 8000) * scale)
     t2 = time.time()
-    part_real_thermo(ctx, res, ctx.n(8, 150))
+    part_real_thermo(ctx, res, ctx.n(6, 150))
     t3 = time.time()
     part_kwn_multiphase(ctx, res, ctx.n(40, 200))
-    part_kwn_multiphase(ctx, res, ctx.n(100, 400), cached=True)
+    part_kwn_multiphase(ctx, res, ctx.n(25, 120), loaded=True)
+    part_kwn_multiphase(ctx, res, ctx.n(60, 400), cached=True)
     if ctx.thorough:
         for _ in range(3):
             part_kwn_multiphase(ctx, res, 150)
             part_kwn_multiphase(ctx, res, 400, cached=True)
         part_kwn_multiphase(ctx, res, 80, three=True)
+        part_kwn_multiphase(ctx, res, 60, three=True, loaded=True)
+        part_kwn_multiphase(ctx, res, 100, loaded=True)
         part_kwn_multiphase(ctx, res, 250, three=True, cached=True)
     t4 = time.time()
     part_kwn_ternary(ctx, res, ctx.n(25, 200))
